@@ -110,6 +110,28 @@ def ref_consumer_calls(body, r, depth=4):
     return out
 
 
+def ref_aliases(body, r):
+    """locals holding the reference r or a reborrow / move of it"""
+    seen, work = set(), [r]
+    while work:
+        l = work.pop()
+        if l in seen:
+            continue
+        seen.add(l)
+        for i in range(body.nblocks):
+            if body.is_cleanup(i):
+                continue
+            for s in body.stmts(i):
+                if s["k"] != "assign" or s["lhs"].get("p"):
+                    continue
+                rv = s["rv"]
+                if rv["k"] in ("use", "cast") and op_local(rv["op"]) == l:
+                    work.append(s["lhs"]["l"])
+                elif rv["k"] == "ref" and rv["place"]["l"] == l and [e[0] for e in rv["place"].get("p", [])] == ["deref"]:
+                    work.append(s["lhs"]["l"])
+    return seen
+
+
 def classify_borrow(body, bb, idx, s):
     """a `&mut place` statement: is the borrow handed (only) to a reset call as receiver?"""
     cons = ref_consumer_calls(body, s["lhs"]["l"])
@@ -243,6 +265,7 @@ def run(ctx, only_fields=None, rule_prefix="R14"):
     # ---- the entry body: where the per-call writer borrows the whole state
     root_body = None
     u_pos = None
+    whole_borrows = []
     for b in bodies:
         for i in range(b.nblocks):
             if b.is_cleanup(i):
@@ -253,10 +276,39 @@ def run(ctx, only_fields=None, rule_prefix="R14"):
                     # `&mut self.<field holding the composite state struct>` of a Format implementor (identified by type, not by name)
                     if fe and fe[-1][0] == len(s["rv"]["place"]["p"]) - 1 and fe[-1][1][3] in roots and \
                             any(fe[-1][1][4] == c_ or fe[-1][1][4].startswith(c_ + "<") for c_ in carr if c_ not in roots):
-                        root_body, u_pos = b, (i, j)
+                        # the borrow that is stored in the per-call writer (an aggregate), not one handed to a helper for the call's duration
+                        l_ = s["lhs"]["l"]
+                        al_ = ref_aliases(b, l_)
+                        into_agg = any(s2["k"] == "assign" and s2["rv"]["k"] == "agg" and any(op_local(o) in al_ for o in s2["rv"]["ops"])
+                                       for i2 in b.live_blocks() for s2 in b.stmts(i2))
+                        if into_agg or root_body is None:
+                            root_body, u_pos = b, (i, j)
+                        if not into_agg:
+                            whole_borrows.append((b, i, j, l_))
     ctx.check(root_body is not None, R2, "entry-body#whole-state-borrow", "", "cannot find the body that lends the formatter state to the per-call writer")
+    # a helper that is lent the whole state before the per-call writer exists and resets fields of it on every path
+    # (`self.state.reset_for_next_entry()`) counts as those resets, at the position of its call
+    helper_resets = {}      # field name -> [Use in root_body]
+    if root_body is not None:
+        for b_, i_, j_, l_ in whole_borrows:
+            if b_ is not root_body:
+                continue
+            for cb_, t_, ai_ in ref_consumer_calls(root_body, l_):
+                for hb in local_callee_bodies(F, CallSite(root_body, cb_, t_)):
+                    if hb.crate != CR:
+                        continue
+                    for (a2, fn2), us2 in acc.items():
+                        mine = [u for u in us2 if u.body is hb]
+                        rs = [u for u in mine if u.kind == "reset" and u.place is not None and u.place["l"] == ai_ + 1]
+                        if not rs or not hb.must_pass([u.bb for u in rs]):
+                            continue
+                        hdom = hb.dominators()
+                        if any(u.kind != "reset" and not any(pos_dominates(hb, hdom, r.pos(), u.pos()) for r in rs) for u in mine):
+                            continue
+                        helper_resets.setdefault((a2, fn2), []).append(Use(root_body, cb_, len(root_body.stmts(cb_)), "reset"))
     # ---- R14.2 per scratch field
     for a, fn, us in scratch:
+        us = us + helper_resets.get((a, fn), [])
         if only_fields is not None and not (only_fields(a, fn) if callable(only_fields) else fn in only_fields):
             continue
         key = "%s.%s#clean-at-first-use" % (a, fn)
